@@ -191,7 +191,7 @@ def write_evidence(prop: str, tier: str, seed: int, res: Result, wall: float, n_
         "wall_s": round(wall, 3),
         "violations": n_viol,
     }
-    d = VERIF / "evidence"
+    d = Path(os.environ.get("MCHECK_EVIDENCE_DIR") or (VERIF / "evidence"))
     d.mkdir(exist_ok=True)
     tmp = d / f".{prop}.json.tmp"
     tmp.write_text(json.dumps(ev, indent=1, default=str, sort_keys=True) + "\n")
@@ -228,6 +228,19 @@ def confirm(path: Path) -> bool:
             sys.stdout.write(r.stderr[-2000:])
             return False
     return True
+
+
+def confirm_by_rerun(prop: str, tier: str, path: Path) -> bool:
+    """Repeat the whole exploration once in a fresh process (without confirmation) and see whether it writes the same
+    replay file again."""
+    if os.environ.get("MCHECK_IS_RERUN"):
+        return False
+    env = dict(os.environ, MCHECK_NO_CONFIRM="1", MCHECK_IS_RERUN="1", MCHECK_EVIDENCE_DIR=tempfile.mkdtemp(prefix="mcheck_ev_"))
+    try:
+        r = subprocess.run([str(VERIF / "run_check"), prop, tier], capture_output=True, text=True, env=env)
+    finally:
+        shutil.rmtree(env["MCHECK_EVIDENCE_DIR"], ignore_errors=True)
+    return r.returncode == 1 and f"replay={path}" in r.stdout
 
 
 def main(argv: List[str]) -> int:
@@ -293,6 +306,15 @@ def main(argv: List[str]) -> int:
             if os.environ.get("MCHECK_NO_CONFIRM") or confirm(path):
                 n = res.counters.get(f"violations[{kind}/{sig}]", len(vs))
                 print(f"  detail: kind={kind} sig={sig} cases={n} msg={v.msg[:600]}")
+                print(f"VIOLATION property={prop} replay={path}")
+                rc = 1
+            elif confirm_by_rerun(prop, tier, path):
+                # The single case is clean on its own but the violation shows again when the whole exploration is repeated
+                # in a fresh process: the outcome depends on earlier calls of the same run (state carried between calls),
+                # which the explored code is not supposed to have. The replay file documents the case; reproduce with the
+                # full command.
+                n = res.counters.get(f"violations[{kind}/{sig}]", len(vs))
+                print(f"  detail: kind={kind} sig={sig} cases={n} history-dependent (reproduces only within the full exploration) msg={v.msg[:500]}")
                 print(f"VIOLATION property={prop} replay={path}")
                 rc = 1
             else:
